@@ -323,7 +323,7 @@ func runC03(c *Ctx) {
 			// guarded by endStream (the parameter) being true
 			g := false
 			for _, gd := range guardsAt(cs[0].Instr.Block()) {
-				if gd.Cond == ssa.Value(fn.Params[1]) && gd.True {
+				if sameParam(gd.Cond, fn.Params[1]) && gd.True {
 					g = true
 				}
 			}
